@@ -42,6 +42,7 @@ MODELS = {
     # integer labels outside CPython's cache of small ints (their objects are owned by the model, not immortal)
     "biglabel": {"terms": {(0, 300): 1, (300,): -1, (0, 1, 300): 2}, "deg": 3, "matrix_only": True},
 }
+HUGE = {"hugegap": {"terms": {(0, 1500000): -1, (1500000,): 2}, "matrix_only": True}}
 SCHEDULES = [[], [0], [0, 0], [1], [2, 0.5, 0], ["linear", 1], ["linear", 2], ["geometric", 1], ["geometric", 2]]
 
 
@@ -171,7 +172,7 @@ def drive(variant, mode, calls, env_extra=None, label=""):
 
 
 def model_class(spec):
-    m = MODELS[spec["model"]]
+    m = dict(MODELS, **HUGE)[spec["model"]]
     if m.get("stale"):
         return "zero-terms-with-reported-variables"
     return spec["model"]
@@ -249,6 +250,25 @@ def run(ctx):
     st.transitions += 4 * len(reuse)
     st.traces += 4 * rdone
     ctx.log("model reuse: %d of %d sequences clean" % (rdone, len(reuse)))
+
+    # ---- a Matrix model with a label gap of 1.5 million (every buffer of the kernels scales with max_index + 1)
+    huge = [{"kind": k, "model": "hugegap", "container": c, "scheme": "int", "fn": f, "schedule": [1], "num_anneals": 1,
+             "init": "none", "in_order": True, "seed": 0}
+            for k, c, f in (("spin", "QUSOMatrix", "anneal_quso"), ("spin", "PUSOMatrix", "anneal_puso"), ("bool", "QUBOMatrix", "anneal_qubo"))]
+
+    def work_huge(k):
+        res, crashes = drive("asan", "single", [huge[k]], env_extra={"ASAN_OPTIONS": cbuild.asan_env()["ASAN_OPTIONS"] + ":detect_stack_use_after_return=0"})
+        return crashes, len(res)
+    for k, (crashes, n) in enumerate(pmap(work_huge, range(len(huge)))):
+        st.states += 1
+        st.evaluations += 1
+        st.transitions += 1
+        st.traces += n
+        for i, kind, loc, tape, err in crashes:
+            s = huge[k]
+            st.violation("%s|hugegap|%s|%s" % (s["fn"], kind, loc), {"mode": "single", "spec": s},
+                         "C17 %s (max label 1500000): %s at %s\n%s" % (s, kind, loc, _tail(err)))
+    ctx.log("huge label gap: %d calls" % len(huge))
 
     # ---- ordered pairs in one process
     alone = {}
